@@ -59,6 +59,9 @@ func init() {
 		Trusted: trust("A-SORT", "A-PS")})
 	add(&propSpec{ID: "C18", Level: "proof", Funcs: append([]string{"bexpr.Evaluator.Evaluate", "bexpr.getValue"}, optFuncs...),
 		Trusted: trust("A-PS", "A-HOOK")})
+	add(&propSpec{ID: "C08", Level: "proof", Funcs: []string{"bexpr.getValue", "bexpr.evaluateNotPresent", "bexpr.doMatchIsEmpty", "bexpr.doMatchEqual", "bexpr.doMatchIn", "bexpr.doMatchMatches",
+		"bexpr.doEqualString", "bexpr.evaluateCollectionExpression$1", "bexpr.Evaluator.Evaluate", "bexpr.Filter.Execute"},
+		Extras: []string{"read:no-struct-content"}, Trusted: trust("A-PS", "A-HOOK", "A-EXT-PURE")})
 	add(&propSpec{ID: "C12", Level: "proof", Funcs: []string{"bexpr.doMatchMatches", "bexpr.compileRegexps"},
 		Extras:  []string{"frame:write:bexpr.Evaluator.Evaluate,bexpr.Filter.Execute,bexpr.CreateEvaluator,bexpr.CreateFilter,bexpr.Evaluator.Expression", "frame:no-concurrency"},
 		Trusted: trust("A-DRF", "A-REGEXP", "A-PS", "A-HOOK", "A-EXT-PURE")})
